@@ -129,6 +129,10 @@ def consumeTrailing (s : Bytes) (n : Option Nat) : M (Bytes × Bytes) :=
   | .error x => .error x
   | .ok keep => .ok (s.drop keep, s.take keep)
 
+/-- `Tokenizer::success(n)` / `successTrailing(n)` used as a `bool`: the *count* of consumed bytes converted to bool, so that
+skipping an empty token reports false -/
+def success (c : Bytes × Bytes) : Bool × Bytes := (c.1.length != 0, c.2)
+
 /-- `buf_.substr(0, limit)` (npos = `none`) -/
 def window (limit : Option Nat) (s : Bytes) : Bytes :=
   match limit with
@@ -157,20 +161,20 @@ def tokSkipOne (set : CharSet) (s : Bytes) : M (Bool × Bytes) :=
   if s.isEmpty then .ok (false, s)
   else match rd s 0 with
     | .error x => .error x
-    | .ok c => if set.mem c then .ok (true, (consume s (some 1)).2) else .ok (false, s)
+    | .ok c => if set.mem c then .ok (success (consume s (some 1))) else .ok (false, s)
 
 /-- `Tokenizer::skip(char)` -/
 def tokSkipChar (ch : UInt8) (s : Bytes) : M (Bool × Bytes) :=
   if s.isEmpty then .ok (false, s)
   else match rd s 0 with
     | .error x => .error x
-    | .ok c => if c = ch then .ok (true, (consume s (some 1)).2) else .ok (false, s)
+    | .ok c => if c = ch then .ok (success (consume s (some 1))) else .ok (false, s)
 
 /-- `Tokenizer::skip(SBuf)` -/
 def tokSkip (t : Bytes) (s : Bytes) : M (Bool × Bytes) :=
   match startsWith s t with
   | .error x => .error x
-  | .ok true => .ok (true, (consume s (some t.length)).2)
+  | .ok true => .ok (success (consume s (some t.length)))
   | .ok false => .ok (false, s)
 
 /-- `Tokenizer::skipOneTrailing(set)`: `!buf_.isEmpty() && skippable[buf_[buf_.length()-1]]` -/
@@ -184,7 +188,7 @@ def tokSkipOneTrailing (set : CharSet) (s : Bytes) : M (Bool × Bytes) :=
         if set.mem c then
           match consumeTrailing s (some 1) with
           | .error x => .error x
-          | .ok r => .ok (true, r.2)
+          | .ok r => .ok (success r)
         else .ok (false, s)
 
 /-- `prefixEnd == SBuf::npos ? 0 : (prefixEnd + 1)` -/
@@ -257,7 +261,7 @@ def tokSkipSuffix (t : Bytes) (s : Bytes) : M (Bool × Bytes) :=
         if eq ∧ tail.length = t.length then
           match consumeTrailing s (some t.length) with
           | .error x => .error x
-          | .ok r => .ok (true, r.2)
+          | .ok r => .ok (success r)
         else .ok (false, s)
 
 end SquidModel.Robust
